@@ -179,6 +179,23 @@ def r3(ctx):
     mism = [g for g in edge_guards(b) if g.atom()[1] is True and match(core(g.atom()[0]), ('bin', 'Ne', Call('len', ANY), Call('len', ANY)))]
     eqs = [g for g in edge_guards(b) if g.atom()[1] is False and match(core(g.atom()[0]), ('bin', 'Eq', Call('len', ANY), Call('len', ANY)))]
     mism = mism + eqs
+    if len(mism) > 1:
+        # several comparisons of the two lengths: every one that is not part of a debug assertion is a mismatch test, and none of them may
+        # lead to Ok on its mismatch edge (a fallback that re-segments the text "so that the lengths agree" turns the error into a result)
+        from rules.common import debug_only_blocks
+        dbg = debug_only_blocks(b)
+        real = [g_ for g_ in mism if g_.block not in dbg and any(match(core(x), Call('len', ('arg', 2, ANY))) for x in (core(g_.atom()[0])[2], core(g_.atom()[0])[3]))]
+        for g_ in real:
+            reg_ = cfg.reach_const(b, g_.target)
+            okr = [blk for v, blk in ret_values(b) if v[0] == 'agg' and v[2].endswith('Result::Ok') and blk in reg_]
+            ctx.require(not okr, b, 'mismatch-not-ok', 'a length mismatch never returns Ok',
+                        'after the length test at line %d found a mismatch, repair can still return Ok (line %d): a length mismatch must be an error' % (
+                            b.blocks[g_.block].term.span['line'], b.blocks[okr[0]].term.span['line'] if okr else 0), b.blocks[g_.block].term.span)
+        errs_ = [blk for v, blk in ret_values(b) if (v[0] == 'agg' and v[2].endswith('Result::Err')) or (v[0] == 'call' and v[1].endswith('from_residual'))]
+        lead = [g_ for g_ in real if any(e in cfg.reach_const(b, g_.target) for e in errs_) and
+                not any(blk in cfg.reach_const(b, g_.target) for v, blk in ret_values(b) if v[0] == 'agg' and v[2].endswith('Result::Ok'))]
+        if len(lead) == 1:
+            mism = lead
     if len(mism) != 1:
         raise AnchorMissing('the length comparison chars.len() != operations.len() of repair()')
     g = mism[0]
@@ -349,3 +366,38 @@ def r8(ctx):
                     '%s segments only the parameters %s of %s' % (fn, sorted(seen), sorted(params.values())))
     if n < 3:
         raise AnchorMissing('CharString::new calls of operations() / repair() (found %d)' % n)
+
+
+@rule('C10', 'R-C10-9', 'T11 SIBLING (the Python encoding of an operation: writer and reader agree)',
+      'Operation::into_pyobject writes one letter per variant and Operation::extract_bound reads the same letter back as the same variant (Keep "k", '
+      'Insert "i", Delete "d"): operations() handed to Python and passed back to repair() are the operations that were computed')
+def r9(ctx):
+    from rules.common import py_encoding_agrees
+    py_encoding_agrees(ctx, 'whitespace::Operation', {'Keep', 'Insert', 'Delete'})
+
+
+@rule('C10', 'R-C10-10', 'T1 ORDER (operations() returns what the alignment loop produced)',
+      'the vector operations() returns is only appended to, one entry per character of `from`: nothing is removed, reordered or de-duplicated after the '
+      'alignment loop (a truncation to the length of `to` drops the Delete operations of trailing whitespace)')
+def r10(ctx):
+    b = ctx.body('whitespace::operations')
+    outs = state_locals(b, r'^std::vec::Vec<whitespace::Operation>$')
+    if len(outs) != 1:
+        raise AnchorMissing('the operation vector of operations() (found %d)' % len(outs))
+    n = 0
+    for t in b.terms('call'):
+        if not t.args or t.args[0].place is None:
+            continue
+        r_ = core(sym(b, t.args[0]))
+        if not (r_[0] == 'var' and len(r_) > 2 and r_[2] == outs[0]):
+            continue
+        if 'mut' not in b.local_ty(t.args[0].place.local):
+            continue
+        n_ = (t.callee_res() or '').rsplit('::', 1)[-1]
+        n += 1
+        ctx.require(n_ in ('push', 'reserve', 'deref', 'deref_mut', 'extend', 'with_capacity'), b, 'operations-append-only|' + n_,
+                    'the operation vector is only appended to (line %d: %s)' % (t.span['line'], n_),
+                    'the operation vector is modified by `%s` at line %d after / besides the per-character pushes: the result no longer has one operation per character of `from`' % (
+                        n_, t.span['line']), t.span)
+    if n < 3:
+        raise AnchorMissing('pushes into the operation vector (found %d)' % n)
